@@ -244,7 +244,15 @@ def run_float(ctx, n):
         Q, _, _ = _quat(rng)
         Q = Q / np.linalg.norm(Q) * loguniform(rng, 1e-3, 1e3)
         P2 = Pn * loguniform(rng, 1e-3, 1e3)
-        PQ = R.quatprod(P2, Q)
+        P2arg = P2
+        if rng.random() < 0.15:
+            # integer-typed first factor (the product routine accepts it; the rotation matrices are built from float copies)
+            P2arg = rng.integers(-3, 4, size=4)
+            if not np.any(P2arg):
+                P2arg[0] = 1
+            P2 = P2arg.astype(float)
+            ctx.cls("float:quatprod_integer_factor")
+        PQ = R.quatprod(P2arg, Q)
         ctx.mon("float.homomorphism")
         e = np.abs(R.Exp_SO3_quat(PQ) - R.Exp_SO3_quat(P2) @ R.Exp_SO3_quat(Q)).max()
         if e > 4 * tol:
